@@ -147,6 +147,8 @@ def run(ctx, n, faults):
             if c["fault_at"] is not None:
                 if r["status"] != "raise":
                     prop_bad = "an event repeats a cue under the default policy but the call returned %r" % (r.get("value"),)
+            elif r["status"] != "ok" and r.get("type") in ("AttributeError", "TypeError", "NotImplementedError"):
+                pass        # the code asked the stand-in pool for something it does not offer: see (2)
             elif r["status"] != "ok":
                 prop_bad = "the call raised %s %s on a fault-free file" % (r.get("type"), r.get("message"))
             elif r["value"] != n_ev:
@@ -162,6 +164,8 @@ def run(ctx, n, faults):
         elif any(e[0] == "callback_raised" for e in log):
             bad = "a callback raised inside the result handler (%r): the real pool's handler thread would die" % (
                 [e for e in log if e[0] == "callback_raised"][0],)
+        elif r["status"] != "ok" and r.get("type") in ("AttributeError", "TypeError", "NotImplementedError"):
+            bad = "the call raised %s %s (the stand-in pool cannot follow the code any more)" % (r.get("type"), r.get("message"))
         elif got["finished"] == 0 and m["finished"] == 0:
             rep.bump("proto_schedules_too_short_to_finish", 1)
         else:
